@@ -95,6 +95,11 @@ def stream_a(rng, tier, impl, modelled):
         if not nm.startswith("GRAPH.") and nm not in stepgen.NBR:
             for _ in range(nscale):          # one component of the state LARGE: sizes at / around powers of two
                 cases.append(stepgen.step_case(rng, nm, impl, safe, scale=1.0))
+    for (tgt, pat, sub) in ((L(N("C"), N("A")), N("A"), L(N("A"), N("B"))), (L(Z(1), Z(2), L(Z(3), Z(1))), Z(1), L(Z(1), Z(1))), (L(L(Z(1)), Z(2)), L(Z(1)), L(L(Z(1)), L(Z(1)))),
+                            (N("A"), N("A"), L(N("A"))), (L(N("A")), N("A"), L(L(N("A"))))):
+        for prof in (0, 1):
+            for order in ([tgt, pat, sub], [tgt, sub, pat], [sub, pat, tgt], [pat, sub, tgt]):
+                cases.append(case_run(prof, state(exec=[I("CODE.SUBST")], code=order + [Z(9)], int=[1], name=["A"], bind=[("A", Z(1))]), 0, 1))
     if "EXEC.CMD" in modelled:
         cases += boundgen.cmd_cases(rng, harmless=(tier == "thorough"))
     n0 = len(cases)
